@@ -6,7 +6,9 @@
 
 package r3
 
-//@ property C16
+//@ import "math/big"
+
+//@ property C16 C02
 
 //@ func PreciseVectorFromVector(v Vector) PreciseVector
 //@   assumed "exact conversion (math/big); used as a deterministic function of its argument"
@@ -18,4 +20,8 @@ package r3
 
 //@ func (v PreciseVector) Vector() Vector
 //@   assumed "rounding to float64; used as a deterministic function of its argument"
+//@   pure
+
+//@ func (v PreciseVector) Dot(ov PreciseVector) *big.Float
+//@   assumed "exact dot product (math/big); used as a deterministic function of its arguments"
 //@   pure
